@@ -555,6 +555,47 @@ fn check_script_r(report: &Report, script: &Script, answers: &[Answer], c: &Ctx,
     }
 }
 
+/// All energy budgets on a grid that is dense at both ends: with less than the run consumes
+/// the run must end out of energy (it is a prefix of the same deterministic execution), with
+/// `used + d` it must end exactly as before with `d` left.
+fn budget_sweep(report: &Report, script: &Script, answers: &[Answer], c: &Ctx, mem0: &[u8], quick: bool) {
+    let w = |b: u64| json!({"params": c.params.name, "script": script_json(script), "answers": answers.iter().map(|a| format!("{:?} state_updated={}", a.resp, a.state_updated)).collect::<Vec<_>>(), "budget": b});
+    let e = expect(script, answers, c, mem0);
+    let wasm = module_of(&e.full, mem0);
+    let Ok(Ok(full)) = mc_core::catch(|| run_real(&wasm, c, BUDGET, answers)) else { return };
+    let Some(rem) = full.remaining else { return };
+    let used = BUDGET - rem;
+    let (dense, spread) = if quick { (300u64, 100u64) } else { (3000, 1500) };
+    let mut grid: Vec<u64> = (0..=dense.min(used)).collect();
+    grid.extend((1..spread).map(|i| (used as u128 * i as u128 / spread as u128) as u64));
+    grid.extend(used.saturating_sub(dense)..=used + 1);
+    grid.push(used + 1000);
+    grid.sort();
+    grid.dedup();
+    report.eval(grid.len() as u64);
+    for b in grid {
+        match mc_core::catch(|| run_real(&wasm, c, b, answers)) {
+            Ok(Ok(r)) => {
+                report.trace(1);
+                if b < used {
+                    if r.outcome != Outcome::OutOfEnergy {
+                        report.violation("run-completes-with-less-energy-than-it-consumes", w(b), json!({"consumed_with_ample_budget": used, "observed": short(&r.outcome).chars().take(300).collect::<String>()}));
+                        return;
+                    }
+                } else if r.outcome != full.outcome || r.remaining != Some(b - used) || r.sections != full.sections {
+                    report.violation("energy-accounting-not-deterministic", w(b), json!({"consumed_with_ample_budget": used, "observed": short(&r.outcome).chars().take(300).collect::<String>(), "remaining": r.remaining}));
+                    return;
+                }
+            }
+            other => {
+                report.violation("host-function-panicked", w(b), json!({"result": format!("{:?}", other.map(|x| x.map(|y| short(&y.outcome))))}));
+                return;
+            }
+        }
+    }
+    report.outcome("budget sweep completed", 1);
+}
+
 // ---- alphabets ------------------------------------------------------------------------------
 
 #[derive(Clone, Copy, PartialEq)]
@@ -760,8 +801,37 @@ fn run_engine(cli: &Cli, report: &Report) {
         // an entry deleted under a live handle
         special.push((p, vec![c(F::StateLookupEntry, &[KEYS as u64, 2]), c(F::StateDeleteEntry, &[KEYS as u64, 2]), Call { f: F::StateEntrySize, args: vec![Arg::Res(0)] }, Call { f: F::StateEntryRead, args: vec![Arg::Res(0), Arg::C(SCRATCH as u64), Arg::C(4), Arg::C(0)] }, Call { f: F::StateEntryWrite, args: vec![Arg::Res(0), Arg::C(SRC as u64), Arg::C(4), Arg::C(0)] }, Call { f: F::StateEntryResize, args: vec![Arg::Res(0), Arg::C(3)] }]));
     }
+    // calls whose work is proportional to a length (these matter most for the budget sweep)
+    for p in [P4, P7] {
+        let pre = prefix();
+        let heavy: Vec<Call> = vec![
+            c(F::HashSha2, &[0, 0xF000, SCRATCH as u64]),
+            c(F::HashSha3, &[0, 0xF000, SCRATCH as u64]),
+            c(F::HashKeccak, &[0, 0xF000, SCRATCH as u64]),
+            c(F::VerifyEd25519, &[PK as u64, SIGNATURE as u64, MSG as u64, 5]),
+            c(F::VerifyEd25519, &[PK as u64, SIGNATURE as u64, 0, 0xF000]),
+            c(F::WriteOutput, &[0, 0x8000, 0]),
+            c(F::LogEvent, &[0, 512]),
+            c(F::GetParameterSection, &[0, SCRATCH as u64, 5, 0]),
+            c(F::GetPolicySection, &[SCRATCH as u64, 12, 0]),
+            Call { f: F::StateEntryResize, args: vec![Arg::Res(0), Arg::C(0x8000)] },
+            Call { f: F::StateEntryWrite, args: vec![Arg::Res(0), Arg::C(0), Arg::C(0x4000), Arg::C(0)] },
+            Call { f: F::StateEntryRead, args: vec![Arg::Res(1), Arg::C(SCRATCH as u64), Arg::C(16), Arg::C(0)] },
+            Call { f: F::StateIteratorNext, args: vec![Arg::Res(2)] },
+            Call { f: F::StateIteratorKeyRead, args: vec![Arg::Res(2), Arg::C(SCRATCH as u64), Arg::C(4), Arg::C(0)] },
+            c(F::StateCreateEntry, &[SRC as u64, 0x100]),
+            c(F::StateDeletePrefix, &[KEYS as u64 + 2, 1]),
+            c(F::Invoke, &[1, CALLARGS as u64, CALLARGS_LEN as u64]),
+        ];
+        for h in heavy {
+            let mut s = pre.clone();
+            s.push(h);
+            special.push((p, s));
+        }
+    }
     report.set_extra("context_cases", json!(special.len()));
     special.par_iter().for_each(|(p, s)| check_script(report, s, &ctx(*p), &mem0, true));
+    special.par_iter().for_each(|(p, s)| budget_sweep(report, s, &[], &ctx(*p), &mem0, quick));
     // ---- layer 3: all scripts of <= 2 (thorough 3) calls over the reduced alphabet ------------
     let mut atoms: Vec<Call> = vec![];
     for f in ALL {
